@@ -181,3 +181,48 @@ def format_vs_draw(m, meta):
             if problems:
                 break
     return {"reproduced": bool(problems), "input": "padding sizes around the rendered size on each axis x alignments, format() vs draw()", "observed": problems[:3]}
+
+
+def style_args(m, meta):
+    """`_check_style_args` of both graphics styles against the documented parameter tables, on the model's values plus the edges of
+    every documented range and one value of every foreign type per parameter"""
+    from term_image.exceptions import StyleError
+    from term_image.image import ITerm2Image, KittyImage
+    doc = {KittyImage: {"method": (str, None, lambda x: x.lower() in ("lines", "whole")), "z_index": (int, 0, lambda x: -(2 ** 31) < x < 2 ** 31),
+                        "mix": (bool, False, lambda x: True), "compress": (int, 4, lambda x: 0 <= x <= 9)},
+           ITerm2Image: {"method": (str, None, lambda x: x.lower() in ("lines", "whole", "anim")), "mix": (bool, False, lambda x: True),
+                         "compress": (int, 4, lambda x: 0 <= x <= 9)}}
+    cand = {"method": [_s(m, "method_text"), "lines", "LINES", "Whole", "anim", "bogus", None, 3, True],
+            "z_index": [ival(m, "z_index_number", 0), 0, 1, -(2 ** 31), -(2 ** 31) + 1, 2 ** 31 - 1, 2 ** 31, True, False, "1", None],
+            "mix": [m.get("mix_flag") == "true", True, False, 0, 1, "x", None],
+            "compress": [ival(m, "compress_number", 4), 4, 0, 9, -1, 10, True, False, "4", None]}
+    problems = []
+    for cls, table in doc.items():
+        base = {"method": "lines", "z_index": 7, "mix": True, "compress": 2}
+        cases = [{k: v for k, v in base.items() if k in table}]
+        for nm in table:
+            for v in cand[nm]:
+                cases.append({**cases[0], nm: v})
+        cases.append({**cases[0], "no_such_parameter": 1})
+        for args in cases:
+            given = dict(args)
+            exp_exc = None
+            if any(k not in table for k in given):
+                exp_exc = StyleError
+            # first offending entry in the order given decides between TypeError / ValueError; the contract only says which are possible
+            bad_type = [k for k, v in given.items() if k in table and not isinstance(v, table[k][0])]
+            bad_val = [k for k, v in given.items() if k in table and isinstance(v, table[k][0]) and not table[k][2](v)]
+            try:
+                got = cls._check_style_args(dict(given))
+                exc = None
+            except Exception as e:  # noqa: BLE001
+                got, exc = None, type(e)
+            if exc is None:
+                want = {k: v for k, v in given.items() if not (table[k][1] is not None and v == table[k][1])} if not (bad_type or bad_val or exp_exc) else None
+                if want is None or got != want:
+                    problems.append({"class": cls.__name__, "args": repr(given), "returned": repr(got), "expected": repr(want) if want is not None else "an error"})
+            else:
+                allowed = ({TypeError} if bad_type else set()) | ({ValueError} if bad_val else set()) | ({StyleError} if exp_exc else set())
+                if exc not in allowed:
+                    problems.append({"class": cls.__name__, "args": repr(given), "raised": exc.__name__, "expected": sorted(a.__name__ for a in allowed) or "accepted"})
+    return {"reproduced": bool(problems), "input": problems[:4], "checked": "both graphics styles, edges of every documented range"}
